@@ -4,7 +4,8 @@
 //
 //	armordrv rt    <cases.ndjson> <out.ndjson> <seed>   round-trip cases
 //	armordrv doc   <cases.ndjson> <out.ndjson> <seed>   abstract documents
-//	armordrv extra <out.ndjson> <megabytes>             hostile streams: termination and heap growth
+//	armordrv stream <cases.ndjson> <out.ndjson> <seed> <kilobytes>   endless streams prefix.unit.unit..., counting source
+//	armordrv extra <out.ndjson> <megabytes> [div]       hostile streams: termination, live heap, prompt delivery
 package main
 
 import (
@@ -701,6 +702,117 @@ func clip(b []byte) string {
 }
 
 // ---------------------------------------------------------------------------
+// endless streams prefix . unit . unit ... fed from a counting source: an
+// error, or the first decoded byte, must come after a bounded amount of input
+
+type streamCase struct {
+	Pre    []string `json:"pre"`
+	Unit   []string `json:"unit"`
+	Expect struct {
+		Kind   string `json:"kind"`
+		Class  string `json:"class"`
+		Within int    `json:"within"`
+	} `json:"expect"`
+}
+
+func (r *runner) doStream(raw json.RawMessage, idx int, capBytes int, limit time.Duration, confirm bool) {
+	var c streamCase
+	if err := json.Unmarshal(raw, &c); err != nil {
+		vh.Fatal("bad case %d: %v", idx, err)
+	}
+	rng := vh.NewRng(r.key ^ uint64(idx)*0x9e37)
+	var pre, unit strings.Builder
+	for _, k := range c.Pre {
+		pre.WriteString(concretise(k, rng))
+	}
+	for _, k := range c.Unit {
+		t := concretise(k, rng)
+		if k == "Word" {
+			t += []string{"", " ", "\n"}[rng.Intn(3)] // a word may or may not be followed by whitespace
+		}
+		unit.WriteString(t)
+	}
+	if !confirm {
+		atomic.AddInt64(&r.nontrivial, 1)
+	}
+	g := &genReader{prefix: []byte(pre.String()), unit: []byte(unit.String()), total: capBytes / unit.Len() * unit.Len()}
+	type out struct {
+		firstAt int   // bytes handed out by the source when the first decoded byte (or the error) arrived
+		n       int64 // decoded bytes
+		err     error
+		gotByte bool
+		errAt   int // bytes handed out when the error was returned
+		panic   string
+	}
+	ch := make(chan out, 1)
+	go func() {
+		var o out
+		defer func() {
+			if v := recover(); v != nil {
+				o.panic = fmt.Sprint(v) + "\n" + string(debug.Stack())
+			}
+			if o.err != nil {
+				o.errAt = g.handed()
+			}
+			ch <- o
+		}()
+		d, err := amp.NewArmorDecoder(g)
+		if err != nil {
+			o.err, o.firstAt = err, g.handed()
+			return
+		}
+		var one [1]byte
+		n, err := io.ReadFull(d, one[:])
+		o.firstAt, o.gotByte, o.n = g.handed(), n == 1, int64(n)
+		if err != nil {
+			if err != io.EOF {
+				o.err = err
+			}
+			return
+		}
+		m, err := io.Copy(io.Discard, d)
+		o.n += m
+		o.err = err
+	}()
+	atomic.AddInt64(&r.decodes, 1)
+	var o out
+	select {
+	case o = <-ch:
+	case <-time.After(limit):
+		if !confirm {
+			r.suspect(idx)
+			return
+		}
+		r.w.Put(vh.Result{Idx: idx, Sig: "stream/hang/expect=" + c.Expect.Kind, Detail: fmt.Sprintf("stream %v (%v)*: decoding did not finish within %v", c.Pre, c.Unit, limit), Case: c})
+		return
+	}
+	shape := fmt.Sprintf("stream %v (%v)* = %q (%q)*", c.Pre, c.Unit, clip([]byte(pre.String())), clip([]byte(unit.String())))
+	switch {
+	case o.panic != "":
+		r.w.Put(vh.Result{Idx: idx, Sig: "stream/panic", Detail: shape + ": " + o.panic, Case: c})
+	case c.Expect.Kind == "error":
+		if o.err == nil || o.errAt > c.Expect.Within+len(g.prefix) {
+			r.w.Put(vh.Result{Idx: idx, Sig: "stream/expect=error:" + c.Expect.Class + "/got=late-or-none", Detail: fmt.Sprintf("%s: err=%v after %d of %d bytes of input; the contract says an error within %d", shape, o.err, o.errAt, g.size(), c.Expect.Within), Case: c})
+		}
+	case c.Expect.Kind == "prompt":
+		if !o.gotByte || o.firstAt > c.Expect.Within+len(g.prefix) {
+			shapeClass := "pre-text-in-one-run"
+			for _, k := range append(append([]string{}, c.Pre...), c.Unit...) {
+				if k == "Tag" || k == "Comment" {
+					shapeClass = "pre-text-interleaved-with-inner-tags"
+				}
+			}
+			for _, k := range c.Unit {
+				if k == "PreClose" {
+					shapeClass = "many-pre-elements"
+				}
+			}
+			r.w.Put(vh.Result{Idx: idx, Sig: "stream/late-delivery/" + shapeClass, Detail: fmt.Sprintf("%s: first decoded byte after %d bytes of input (got one: %v, err=%v); the contract says within %d", shape, o.firstAt, o.gotByte, o.err, c.Expect.Within), Case: c})
+		}
+	}
+}
+
+// ---------------------------------------------------------------------------
 // hostile streams: the decoder must finish and must not buffer without bound
 
 type genReader struct {
@@ -708,13 +820,28 @@ type genReader struct {
 	total                int // bytes of repeated unit
 	pos                  int
 	zeroForever          bool
+	handedAtEOF          bool
+	count                int64 // bytes handed out (read with handed())
+	every                int64 // call sample every so many bytes handed out (0: never)
+	nextSample           int64
+	sample               func()
 }
 
-func (g *genReader) Read(p []byte) (int, error) {
+func (g *genReader) handed() int { return int(atomic.LoadInt64(&g.count)) }
+func (g *genReader) size() int   { return len(g.prefix) + g.total + len(g.suffix) }
+
+func (g *genReader) Read(p []byte) (n int, err error) {
+	defer func() { atomic.AddInt64(&g.count, int64(n)) }()
+	if g.every > 0 && g.count >= g.nextSample {
+		g.nextSample = g.count + g.every
+		g.sample()
+	}
 	if g.zeroForever {
 		return 0, nil
 	}
-	n := 0
+	if len(p) > 4096 {
+		p = p[:4096] // a network-sized read, so that the count of bytes handed out is a fair measure
+	}
 	for n < len(p) {
 		switch {
 		case g.pos < len(g.prefix):
@@ -737,6 +864,7 @@ func (g *genReader) Read(p []byte) (int, error) {
 			g.pos += c
 		default:
 			if n == 0 {
+				g.handedAtEOF = true
 				return 0, io.EOF
 			}
 			return n, nil
@@ -749,14 +877,20 @@ type hostile struct {
 	name                 string
 	prefix, unit, suffix string
 	zero                 bool
-	wantData             int // >= 0: expected number of decoded bytes; -1: an error is expected; -2: either
+	wantData             int  // >= 0: expected number of decoded bytes; -1: an error is expected; -2: either
+	prompt               bool // the first decoded byte must arrive within promptBytes of input
+	scale                int  // > 1: the stream is that many times shorter (streams of very many tiny tokens are slow)
 }
 
-func doExtra(w *vh.Writer, mb int) (int, []interface{}) {
+const promptBytes = 4 * elementLimit // spec/Armor PromptBytes
+const heapBound = 2 << 20            // live heap (after GC) a decode may add, whatever the length of the stream
+
+func doExtra(w *vh.Writer, mb int, div int) (int, []interface{}) {
 	var infos []interface{}
 	total := mb << 20
 	elem := "<pre>\n" + strings.Repeat("QUJDQUJDQUJDQUJDQUJDQUJDQUJDQUJD\n", 900) + "</pre>\n" // 28800 characters = 21600 bytes
 	nElem := total / len(elem)
+	w8 := strings.TrimSpace(strings.Repeat("QUFBQUFBQUFBQUFBQUFBQUFBQUFBQUFB ", 8)) // eight words of 32 characters = 192 bytes of payload
 	cases := []hostile{
 		{name: "unterminated-pre-one-huge-word", prefix: "<pre>0", unit: "A", wantData: -1},
 		{name: "unterminated-pre-words-forever", prefix: "<pre>\n0", unit: "QUJD\n", wantData: -1},
@@ -773,44 +907,50 @@ func doExtra(w *vh.Writer, mb int) (int, []interface{}) {
 		{name: "nested-pre-forever", prefix: "", unit: "<pre>", wantData: -1},
 		{name: "valid-elements-streamed", prefix: "<pre>0</pre>", unit: elem, wantData: nElem * 21600},
 		{name: "reader-returns-zero-forever", zero: true, wantData: -1},
+		// a pre whose text is interleaved with inner tags: many small tokens, </pre> never or late
+		{name: "pre-words-between-tags-unterminated", prefix: "<pre>0 ", unit: w8 + "<i></i> ", wantData: -1, prompt: true, scale: div},
+		{name: "pre-words-between-comments-unterminated", prefix: "<pre>\n0", unit: w8 + "\n<!--x-->", wantData: -1, prompt: true, scale: div},
+		{name: "pre-words-between-tags-closed-late", prefix: "<pre>0", unit: w8 + "\n<br/>", suffix: "</pre>", wantData: total / div / (len(w8) + 6) * 192, prompt: true, scale: div},
+		{name: "pre-single-words-between-tags-unterminated", prefix: "<pre>0 ", unit: "QUFB<i></i> ", wantData: -1, prompt: true, scale: 8 * div},
 	}
 	for i, h := range cases {
 		tot := total
+		if h.scale > 1 {
+			tot = total / h.scale
+		}
 		if len(h.unit) > 0 {
-			tot = total / len(h.unit) * len(h.unit) // whole units only
+			tot = tot / len(h.unit) * len(h.unit) // whole units only
 		}
 		g := &genReader{prefix: []byte(h.prefix), unit: []byte(h.unit), suffix: []byte(h.suffix), total: tot, zeroForever: h.zero}
 		runtime.GC()
 		debug.FreeOSMemory()
 		var m0 runtime.MemStats
 		runtime.ReadMemStats(&m0)
-		var peak uint64
-		stop := make(chan struct{})
-		var wg sync.WaitGroup
-		wg.Add(1)
-		go func() {
-			defer wg.Done()
+		// Live heap is sampled from inside the source's Read, every MB handed out:
+		// the decoding goroutine is then standing still in our Read and the consumer
+		// is about to block on the pipe, so after a forced collection HeapAlloc is
+		// what the decoder retains (floating garbage and objects allocated during a
+		// concurrent collection do not count).
+		var peak uint64 = m0.HeapAlloc
+		g.every = 1 << 20
+		g.sample = func() {
 			var m runtime.MemStats
-			for {
-				select {
-				case <-stop:
-					return
-				case <-time.After(3 * time.Millisecond):
-				}
-				runtime.ReadMemStats(&m)
-				if m.HeapAlloc > peak {
-					peak = m.HeapAlloc
-				}
+			runtime.GC()
+			runtime.ReadMemStats(&m)
+			if m.HeapAlloc > peak {
+				peak = m.HeapAlloc
 			}
-		}()
+		}
 		type out struct {
-			n     int64
-			err   error
-			panic string
+			n       int64
+			err     error
+			panic   string
+			firstAt int
 		}
 		ch := make(chan out, 1)
 		go func() {
 			var o out
+			o.firstAt = -1
 			defer func() {
 				if v := recover(); v != nil {
 					o.panic = fmt.Sprint(v) + "\n" + string(debug.Stack())
@@ -822,7 +962,18 @@ func doExtra(w *vh.Writer, mb int) (int, []interface{}) {
 				o.err = err
 				return
 			}
-			o.n, o.err = io.Copy(io.Discard, r)
+			var one [1]byte
+			if k, err := io.ReadFull(r, one[:]); err != nil {
+				if err != io.EOF { // io.EOF: an empty payload
+					o.err = err
+				}
+				return
+			} else {
+				o.n, o.firstAt = int64(k), g.handed()
+			}
+			m, err := io.Copy(io.Discard, r)
+			o.n += m
+			o.err = err
 		}()
 		var o out
 		hung := false
@@ -832,23 +983,20 @@ func doExtra(w *vh.Writer, mb int) (int, []interface{}) {
 		case <-time.After(limit):
 			hung = true
 		}
-		close(stop)
-		wg.Wait()
-		var m1 runtime.MemStats
-		runtime.ReadMemStats(&m1)
-		if m1.HeapAlloc > peak {
-			peak = m1.HeapAlloc
-		}
+
 		growth := int64(peak) - int64(m0.HeapAlloc)
-		info := map[string]interface{}{"stream": h.name, "megabytes": mb, "consumed": g.pos, "decoded": o.n, "err": fmt.Sprint(o.err), "heap_growth": growth}
+		info := map[string]interface{}{"stream": h.name, "megabytes": float64(tot) / (1 << 20), "consumed": g.pos, "decoded": o.n, "err": fmt.Sprint(o.err), "heap_growth": growth, "first_byte_after": o.firstAt}
 		infos = append(infos, info)
+		if !hung && o.panic == "" && h.prompt && (o.firstAt < 0 || o.firstAt > promptBytes+len(h.prefix)) {
+			w.Put(vh.Result{Idx: i, Sig: "hostile/late-delivery/" + h.name, Detail: fmt.Sprintf("first decoded byte after %d bytes of input (-1: never), the contract says within %d", o.firstAt, promptBytes), Case: info})
+		}
 		switch {
 		case hung:
 			w.Put(vh.Result{Idx: i, Sig: "hostile/hang/" + h.name, Detail: fmt.Sprintf("decoding the stream did not finish within %v", limit), Case: info})
 		case o.panic != "":
 			w.Put(vh.Result{Idx: i, Sig: "hostile/panic/" + h.name, Detail: o.panic, Case: info})
-		case growth > 16<<20:
-			w.Put(vh.Result{Idx: i, Sig: "hostile/unbounded-buffering/" + h.name, Detail: fmt.Sprintf("heap grew by %d bytes while decoding a %d MB stream (bound 16 MiB)", growth, mb), Case: info})
+		case growth > heapBound:
+			w.Put(vh.Result{Idx: i, Sig: "hostile/unbounded-buffering/" + h.name, Detail: fmt.Sprintf("heap grew by %d bytes while decoding a %d MB stream (bound %d MiB)", growth, mb, heapBound>>20), Case: info})
 		case h.wantData == -1 && o.err == nil:
 			w.Put(vh.Result{Idx: i, Sig: "hostile/no-error/" + h.name, Detail: fmt.Sprintf("decoded %d bytes without error", o.n), Case: info})
 		case h.wantData >= 0 && (o.err != nil || o.n != int64(h.wantData)):
@@ -866,7 +1014,7 @@ func main() {
 	}
 	mode := os.Args[1]
 	switch mode {
-	case "rt", "doc":
+	case "rt", "doc", "stream":
 		if len(os.Args) < 5 {
 			vh.Fatal("usage")
 		}
@@ -882,10 +1030,17 @@ func main() {
 		r := &runner{w: w, key: seed * 0x1000003}
 		base, _ := strconv.Atoi(os.Getenv("VERIF_IDX_BASE")) // replay of a single case: its original index (seeds the concretisation)
 		one := func(i int, limit time.Duration, confirm bool) {
-			if mode == "rt" {
+			switch mode {
+			case "rt":
 				r.doRT(cases[i], base+i, limit, confirm)
-			} else {
+			case "doc":
 				r.doDoc(cases[i], base+i, limit, confirm)
+			default:
+				kb := 1024
+				if len(os.Args) > 5 {
+					kb, _ = strconv.Atoi(os.Args[5])
+				}
+				r.doStream(cases[i], base+i, kb<<10, limit, confirm)
 			}
 		}
 		onPanic := func(i int, v interface{}, stack string) {
@@ -918,7 +1073,14 @@ func main() {
 		if len(os.Args) > 3 {
 			mb, _ = strconv.Atoi(os.Args[3])
 		}
-		n, infos := doExtra(w, mb)
+		div := 1 // the streams of many small tokens are that many times shorter (quick tier)
+		if len(os.Args) > 4 {
+			div, _ = strconv.Atoi(os.Args[4])
+		}
+		if div < 1 {
+			div = 1
+		}
+		n, infos := doExtra(w, mb, div)
 		w.Put(map[string]interface{}{"summary": map[string]interface{}{"cases": n, "nontrivial": n, "streams": infos}})
 		w.Close()
 	default:
